@@ -11,7 +11,18 @@ Spec:   WbemUri.tla   symbol-level transcription of to_wbem_uri (4 formats),
                       path of a structured universe and every single-symbol
                       mutation of the printed URIs; 10 regression variants
                       (5 of them are behaviours of the pinned tree) must fail.
-        WbemUriTrace.tla  TraceKit instance: one observed vector per trace.
+        WbemUriHeap.tla  the laws in a HISTORY of calls: Parse(text) returns
+                      a fresh value that depends only on the text, Mutate of a
+                      returned object (also of the reference it holds, nested),
+                      Print; requirement: round trip at any point, returned
+                      objects independent; code-shaped process heap (cells,
+                      addresses, cache switch).
+        WbemUriHist.tla  TLC runs the code-shaped heap against the requirement
+                      for all histories up to MaxLen over texts that share
+                      reference texts; cache variants must fail; the
+                      histories are emitted and replayed on the real code.
+        WbemUriTrace.tla  TraceKit instance: one observed vector per trace, or
+                      one history per trace.
 Binding: every abstract path emitted by TLC (plus random case / key order /
         numeric width variants) x 4 formats -> real objects -> real
         to_wbem_uri / str() / get_cimobject_header -> real from_wbem_uri ->
@@ -96,6 +107,174 @@ def signature(ev, clauses):
     if ev["kind"] == "canon":
         return "canon:%s:%s" % (c, shape(ev["p"]))
     return "parse:%s:%s/%s" % (c, ev["outcome"], ev["outcomec"])
+
+
+HIST_REGRESSION = [
+    ("WbemUriHistCacheRefsRT.cfg", {"HistRoundTrip"},
+     "reference key values parsed through a cache keyed by their text (one "
+     "shared object for equal text): after the caller modified the reference "
+     "of an earlier result, a later from_wbem_uri returns the modified end "
+     "point"),
+    ("WbemUriHistCacheAll.cfg", {"HistIndependent"},
+     "from_wbem_uri results cached by text: modifying one result changes "
+     "another one"),
+]
+
+
+def hist_signature(events, at, clauses):
+    steps = []
+    kind = "inst"
+    for e in events[:at]:
+        if e["kind"] == "htext":
+            kind = e["p"]["kind"]
+        elif e["kind"] == "hparse":
+            steps.append("parse")
+        elif e["kind"] == "hmutate":
+            steps.append("mutate@ref%d" % e["d"] if e["d"] else "mutate")
+        elif e["kind"] == "hprint":
+            steps.append("print")
+    return "hist:%s:%s:%s" % ("+".join(sorted(clauses)), kind,
+                              ">".join(steps))
+
+
+def run_histories(ctx, flags, quick):
+    """the laws in histories: TLC checks the code-shaped heap, emits the
+    histories, the real code replays them, TLC judges the recorded traces"""
+    emit = os.path.join(ctx.work, "histtexts.json")
+    r = ctx.tlc("WbemUriHist", "WbemUriHist.cfg", env={"EMIT_FILE": emit},
+                label="histories of Parse/Mutate/Print (length 3) over texts "
+                "with shared reference texts: round trip at any point, "
+                "returned objects independent (design VFixed); histories "
+                "emitted")
+    hists = [h[1] for h in r.printed("HH")]
+    if not hists or not all(len(h) == 3 for h in hists):
+        raise vlib.MachineryError("no / malformed histories emitted")
+    if not quick:
+        ctx.tlc("WbemUriHist", "WbemUriHistBig.cfg", timeout=3000,
+                label="histories of length 4 (design VFixed)")
+    for cfg, expect, what in HIST_REGRESSION:
+        rr = ctx.tlc("WbemUriHist", cfg, must_pass=False, count=False,
+                     label="regression config: " + what)
+        if rr.violated not in expect:
+            raise vlib.MachineryError("%s: expected a violation of %s, got %s"
+                                      % (cfg, sorted(expect), rr.violated))
+        ctx.extra["sensitivity"].append(
+            "%s violates %s as required (%s)" % (cfg, rr.violated, what))
+    if "1" in (flags.get("C07_CACHEREFS"), flags.get("C07_CACHEALL")):
+        rr = ctx.tlc("WbemUriHist", "WbemUriHistEnv.cfg", env=flags,
+                     must_pass=False, count=False,
+                     label="histories: the variant the tree implements")
+        ctx.extra["design_level_result_for_tree_variant_histories"] = (
+            "TLC: invariant %s violated by the code-shaped heap with the "
+            "cache switch of the tree" % rr.violated if rr.violated
+            else "TLC: no law violated")
+    with open(emit) as f:
+        d = json.load(f)
+    texts, newvals = d["texts"], d["newvals"]
+    # longer histories (thorough tier): random walks of the same machine
+    sims = []
+    if not quick:
+        _, sims = ctx.simulate_behaviours(
+            "WbemUriHist", "WbemUriHistSim.cfg", 300, 7,
+            label="random histories of length 6")
+        sims = [[list(st) for st in h] for h in sims if h]
+    ctx.rng.shuffle(hists)
+    nex = 1000 if quick else len(hists)
+    chosen = hists[:nex] + sims
+    ctx.extra["histories_emitted_by_tlc"] = len(hists)
+    ctx.extra["histories_replayed"] = len(chosen)
+    ctx.extra["random_long_histories_replayed"] = len(sims)
+    traces, infos = [], []
+    for i, steps in enumerate(chosen):
+        ev, inf = H.history_events(ctx.rng, texts, newvals, steps,
+                                   H.UNIQ_BASE + i)
+        traces.append(ev)
+        infos.append(inf)
+    n0 = ctx._tlc_n
+    verdicts = ctx.validate_traces(
+        "WbemUriTrace", "WbemUriTrace.cfg", traces, env=flags, chunk=3000,
+        label="histories replayed on the real from_wbem_uri / to_wbem_uri")
+    kinds = ctx.actions_bound
+    for i, (steps, ev, inf, v) in enumerate(zip(chosen, traces, infos,
+                                                verdicts)):
+        for e in ev:
+            kinds[e["kind"]] = kinds.get(e["kind"], 0) + 1
+        if v["ok"]:
+            continue
+        at = v["at"]
+        sig = hist_signature(ev, at, v["clauses"])
+        what = "history %s: %s" % ("/".join(v["clauses"]),
+                                   [i.get("call") or i.get("uri")
+                                    for i in inf[:at]])
+        ctx.report(sig, what[:900],
+                   {"history": {"steps": steps, "texts": texts,
+                                "newvals": newvals, "uniq": H.UNIQ_BASE + i},
+                    "event": ev[at - 1], "info": inf[:at],
+                    "clauses": v["clauses"]})
+    hist_drift(ctx, n0, traces, infos)
+    # sensitivity: a recorded history in which a second object "changes too"
+    hist_corrupted_rejected(ctx, traces, verdicts, flags)
+    for ev, inf in zip(traces, infos):
+        if len(ev) >= 4 and any(e["kind"] == "hmutate" and e["d"] > 0
+                                for e in ev):
+            ctx.sample({"history": [i.get("call") or i.get("uri")
+                                    for i in inf]})
+            break
+
+
+def hist_drift(ctx, n0, traces, infos):
+    import re
+    base = 0
+    for n in range(n0 + 1, ctx._tlc_n + 1):
+        with open(os.path.join(ctx.work, "tlc%d.out" % n)) as fh:
+            txt = fh.read()
+        for m in re.finditer(r'<<"D", (\d+), (\d+), (\{[^}]*\})>>', txt):
+            i, at = base + int(m.group(1)) - 1, int(m.group(2))
+            ctx.note_drift(
+                "history: real code differs from the code-shaped heap "
+                "(variant %s) in %s at a %s event" % (
+                    ctx.extra.get("impl_variant"), m.group(3),
+                    traces[i][at - 1]["kind"]),
+                {"history": [x.get("call") or x.get("uri")
+                             for x in infos[i][:at]]})
+        base += len(re.findall(r'^<<"V", ', txt, re.M))
+
+
+def hist_corrupted_rejected(ctx, traces, verdicts, flags):
+    import copy
+    pick = None
+    for ev, v in zip(traces, verdicts):
+        if v["ok"] and [e["kind"] for e in ev if e["kind"] != "htext"][:3] \
+                == ["hparse", "hparse", "hmutate"] and \
+                ev[-1]["kind"] == "hmutate" and ev[-1]["h"] == 1 and \
+                ev[-1]["f"] == "cls":
+            pick = copy.deepcopy(ev)
+            break
+    if pick is None:
+        raise vlib.MachineryError("no accepted parse/parse/mutate history")
+    # the second object shows the modification of the first one
+    a = copy.deepcopy(pick)
+    a[-1]["heap"][1] = copy.deepcopy(a[-1]["heap"][0])
+    # a later parse returns something else than the first parse of the text
+    b = [e for e in copy.deepcopy(pick) if e["kind"] != "hmutate"]
+    second = [e for e in b if e["kind"] == "hparse"][1]
+    second["q"]["cls"] = second["q"]["cls"] + ["a"]
+    second["heap"][-1] = second["q"]
+    n0, e0 = ctx.traces, ctx.events
+    vs = ctx.validate_traces("WbemUriTrace", "WbemUriTrace.cfg", [a, b],
+                             env=flags,
+                             label="sensitivity: corrupted recorded histories")
+    ctx.traces, ctx.events = n0, e0
+    if vs[0]["ok"] or "Independent" not in vs[0]["clauses"]:
+        raise vlib.MachineryError("corrupted history not rejected with "
+                                  "Independent: %s" % vs[0])
+    if vs[1]["ok"] or "RoundTrip" not in vs[1]["clauses"]:
+        raise vlib.MachineryError("corrupted history not rejected with "
+                                  "RoundTrip: %s" % vs[1])
+    ctx.extra["sensitivity"].append(
+        "2 corrupted recorded histories (a second returned object shows the "
+        "modification of the first; a later parse returns a different class "
+        "name) rejected by TLC with Independent / RoundTrip")
 
 
 def load_universe(path):
@@ -269,6 +448,7 @@ def run(ctx):
             ("." + e["outcome"] if e["kind"] != "canon" else "")
         kinds[k] = kinds.get(k, 0) + 1
     ctx.actions_bound = kinds
+    run_histories(ctx, flags, quick)
     for i in (0, len(paths) * 3, len(events) - 1):
         if 0 <= i < len(events):
             ctx.sample({"event": {k: v for k, v in events[i].items()
@@ -294,6 +474,22 @@ def replay(rep):
     case = rep["case"]
     ev = case["event"]
     rng = random.Random(rep.get("seed", 0))
+    if "history" in case:
+        hs = case["history"]
+        evs, info = H.history_events(rng, hs["texts"], hs["newvals"],
+                                     hs["steps"], hs["uniq"])
+        for i in info:
+            print("real:", i)
+        ctx = vlib.Ctx(rep["property"] + "_replay", "quick",
+                       rep.get("seed", 0))
+        v = ctx.validate_traces("WbemUriTrace", "WbemUriTrace.cfg", [evs],
+                                env=H.probe_variant())[0]
+        print("verdict:", v)
+        if not v["ok"]:
+            print("VIOLATION property=%s replay=(reproduced) %s" %
+                  (rep["property"], v["clauses"]))
+            return 1
+        return 0
     if ev["kind"] == "rt":
         new, info = H.rt_event(rng, ev["p"], ev["fmt"])
     elif ev["kind"] == "canon":
